@@ -210,6 +210,13 @@ def run_case(case):
         r.inconc("subject construction failed: %r" % (e,))
         return r.done()
     model.train(mode == "train")
+    if mode == "train" and kind == "flow" and seed % 2 == 0:
+        # a partly frozen model (fine-tuning): the last sub-module that owns parameters or buffers stays in evaluation mode
+        owners = [m_ for m_ in model.modules() if m_ is not model and (list(m_.parameters(recurse=False)) or list(m_.buffers(recurse=False)))]
+        if owners:
+            owners[-1].eval()
+            owners[len(owners) // 2].eval()
+            r.count("mixed_mode_subjects")
     model0 = copy.deepcopy(model) if mode == "eval" else None
     uses_cache = any(getattr(m, "using_cache", False) for m in model.modules())
     nsteps = 3 + seed % 5
@@ -256,6 +263,7 @@ def run_case(case):
             if op == "mean":
                 return (m.mean(cc),)
         snap = ww.snapshot(prot)
+        flags_before = {n_: m_.training for n_, m_ in model.named_modules()}
         watch = ww.WriteWatch(prot, allow=allow)
         torch.manual_seed(seed + step)
         try:
@@ -290,6 +298,18 @@ def run_case(case):
         if mode == "train" and (mod_events or mod_changed):
             r.viol("undocumented_training_write", "%s.%s writes model state other than the documented statistics in training mode"
                    % (label, op), changed=mod_changed, write_events=mod_events[:2], **det)
+        # state that is neither a parameter nor a buffer value: the training flags of the sub-modules, and the autograd status of the
+        # buffers (a running statistic that comes out of a call as a non-leaf tensor carries the graph of that batch into every
+        # later call and makes the model impossible to deep-copy)
+        flags_after = {n_: m_.training for n_, m_ in model.named_modules()}
+        r.count("mode_flag_checks")
+        if flags_after != flags_before:
+            chg = [n_ for n_ in flags_before if flags_after.get(n_) != flags_before[n_]]
+            r.viol("model_mutated_in_eval" if mode == "eval" else "undocumented_training_write",
+                   "%s.%s changes the training / evaluation mode flags of (sub-)modules" % (label, op), modules=chg[:5], **det)
+        graphy = [n_ for n_, b_ in model.named_buffers() if b_.requires_grad or b_.grad_fn is not None]
+        if graphy:
+            r.viol("buffer_in_graph", "%s.%s leaves a buffer attached to the autograd graph of the call" % (label, op), buffers=graphy[:5], **det)
         if watch.allowed_events:
             r.count("documented_statistic_writes", len(watch.allowed_events))
         # (c) history independence (eval): same call on a never-called copy gives the same bits
@@ -401,6 +421,7 @@ def reuse_and_update_phase(r, model, model0, kind, cfg, label, opnames, mk_input
                    phase=tag, result_index=bad[0], max_diff=bad[1], subject=label, op=op, cfg=cfg)
         r.cell(label, op, "eval", tag)
 
+    kept = {}
     # (1) caller-owned buffers refilled in place
     for oi, op in enumerate(opnames):
         try:
@@ -430,6 +451,7 @@ def reuse_and_update_phase(r, model, model0, kind, cfg, label, opnames, mk_input
         else:
             cb = c2
         compare("refilled_arguments", op, xb, cb, copy.deepcopy(model0), oi)
+        kept[op] = (xb, cb)
     # (2) new values through train() ... eval()
     try:
         model.train()
@@ -448,6 +470,11 @@ def reuse_and_update_phase(r, model, model0, kind, cfg, label, opnames, mk_input
     except Exception as e:
         r.count("update_phase_skipped")
         return
+    # first of all, with the very tensor objects (unchanged contents) the object saw before its values changed: a memo keyed on the
+    # identity / version of an argument survives everything except new values of the model
+    for oi, op in reversed(list(enumerate(opnames))):      # most recently used arguments first (a one-slot memo holds those)
+        if op in kept and not (kind == "transform" and op == "inverse"):
+            compare("same_arguments_after_value_update", op, kept[op][0], kept[op][1], copy.deepcopy(ref_model), oi)
     for oi, op in enumerate(opnames):
         try:
             x1, c1 = mk_inputs(30 + oi)
